@@ -259,7 +259,9 @@ def _mk_pipeline(family):
                      "unregistered near-miss names (case, prefix, suffix, other namespace) run nothing and yield a "
                      "not-found client fault")
     def ob(c):
-        names = ['m', 'other'] + NEAR_MISS + (['{urn:other}m'] if family in ('soap11', 'xml') else [])
+        names = ['m', 'other'] + NEAR_MISS + (['{urn:other}m'] if family in ('soap11', 'xml', 'json', 'yaml', 'msgpack') else [])
+        if family in ('json', 'yaml', 'msgpack'):
+            names += ['{%s}m' % TNS + 'x', '{}m', '}m', '{urn:other}other']
         name = c.choose(names, 'requested_name')
         h = Harness(c, family, user_outcomes=['return'])
         method, path, qs, body, ctype = requests_for(family)['valid']
@@ -268,6 +270,12 @@ def _mk_pipeline(family):
         elif family == 'json':
             import json
             body = json.dumps({name: {'i': 5}}).encode()
+        elif family == 'yaml':
+            import yaml
+            body = yaml.safe_dump({name: {'i': 5}}).encode()
+        elif family == 'msgpack':
+            import msgpack
+            body = msgpack.packb({name.encode('utf8'): {b'i': 5}})
         elif family in ('soap11', 'xml'):
             if name.startswith('{'):
                 tag = '<o:m xmlns:o="urn:other"><o:i>5</o:i></o:m>'
@@ -303,7 +311,7 @@ def _mk_pipeline(family):
     return ob
 
 
-for _f in ('http', 'json', 'soap11', 'xml'):
+for _f in ('http', 'json', 'yaml', 'msgpack', 'soap11', 'xml'):
     _mk_pipeline(_f)
 
 
@@ -415,3 +423,34 @@ def patterns_pipeline(c):
         c.check('near_miss_4xx', bool(seen) and seen[0][:1] == '4', detail=(path, seen, b''.join(chunks)[:200]))
     else:
         c.check('addressed_method_runs_once', ran == [want], detail=(path, verb, ran, seen, b''.join(chunks)[:200]))
+
+
+@obligation('C11.naming.dictdoc', targets=['spyne.protocol.dictdoc._base:DictDocument.gen_method_request_string'],
+            desc="for an arbitrary (symbolic) single key of a dict-document request: the method request string is exactly "
+                 "'{<target namespace>}<key>' -- the key is taken whole, so a key that carries a namespace of its own, a "
+                 "prefix or a suffix can never be turned into a registered name")
+def naming_dictdoc(c):
+    from spyne.protocol.json import JsonDocument
+    from spyne.context import MethodContext
+    from spyne.server import ServerBase
+
+    class NSvc(ServiceBase):
+        @rpc(Integer, _returns=Integer)
+        def m(ctx, i):
+            return i
+    prot = JsonDocument()
+    app = Application([NSvc], TNS, name='NApp', in_protocol=prot, out_protocol=JsonDocument())
+    ctx = MethodContext(ServerBase(app), MethodContext.SERVER)
+    key = c.str('key')
+    doc = {}
+    if c.concrete:
+        doc[key] = {'i': 5}
+    else:
+        from pyvc.models import sym_key_store
+        sym_key_store(c.interp, doc, key, {'i': 5})
+    ctx.in_body_doc = doc
+    out = c.run(prot.gen_method_request_string, ctx)
+    c.check('returns', out.returned, detail=repr(out))
+    if out.returned:
+        from pyvc.text import text_eq
+        c.check('key_taken_whole_under_the_target_namespace', text_eq(out.value, '{%s}' % TNS + key), detail=repr(out.value))
